@@ -167,6 +167,7 @@ unsafe fn do_accept(fd: c_int, addr: *mut sockaddr, len: *mut socklen_t, flags: 
                 let pr = crate::world::PROC_ID.with(|p| p.get());
                 let now = w.now;
                 w.accept_log.push((pr, now));
+                w.accept_peers.push(peer);
                 if w.accepted_peer.len() > w.max_open_accepted { w.max_open_accepted = w.accepted_peer.len(); }
                 w.tr(0xAC, peer.port() as u64);
                 w.on_sozu_socket(nfd);
